@@ -274,6 +274,30 @@ CLAIMED = {
         technique="TLA+ model checking (TLC) + spec->code replay + hook-trace step validation",
         design_ref="4/C23",
     ),
+    "C03": dict(
+        level="model_checking",
+        text="QubitOrder.tla (atoms are labels; every per-atom datum carries its label; one operator per index-space change of the code) is model-checked against LabelCoherent, ResultsInRegisterOrder and an explicit two-run RelabelEquivariance for all register orders, optimiser outputs, dark masks and initial-state choices; "
+             "every enumerated scenario for n <= 3 / 4 is replayed into real MPSBackend / SVBackend runs with the optimiser forced to the scenario's permutation, compared with its same-site-order run (tight) and the dense per-label reference, then handed back to TLC; the real RCM optimiser is exercised on 6-16 atoms.",
+        note="Exhaustive only for small n (forced permutations n <= 5); per-atom identification needs distinct DMM weights and distances; bitstring claims are exact binomial tests at a family-wise 1e-9.",
+        technique="TLA+ model checking (TLC) + spec->code replay with forced optimiser output + recorded-structure validation by TLC + same-computation oracle",
+        design_ref="4/C03",
+    ),
+    "C25": dict(
+        level="model_checking",
+        text="The QubitOrder model restricted to runs with state-preparation errors is checked against RunsForEveryMask, DarkStayGround, DarkDoNotInteract, OthersAsReducedRegister, LabelCoherent and ResultsInRegisterOrder for every mask, register order, optimiser output and 2 / 3 levels; "
+             "scenarios are replayed through _run_from_sequence_data of both backends (hand-set masks, Pulser-zeroed masks, Pulser's own draw; reordering on / off; with / without leakage) and compared with the same backend on the reduced register (tight) and the dense reference.",
+        note="Three levels are emu-mps only; noise enters at 1e-7/us to select code paths without changing values; emu-sv index handling observed through results only.",
+        technique="TLA+ model checking (TLC) + spec->code replay + reduced-register same-computation oracle",
+        design_ref="4/C25",
+    ),
+    "C32": dict(
+        level="model_checking",
+        text="Perm.tla transcribes the six permutation helpers and checks their laws for every permutation of 1..6 elements; the real helpers are called with the same permutations and their outputs go back to TLC. BandwidthOpt.tla checks the bookkeeping of minimize_bandwidth around an adversarial RCM step against the contract "
+             "(a permutation of all atoms with weighted bandwidth no larger than the original); outputs of the real optimiser for seeded symmetric matrices of size 1..30 are evaluated by TLC.",
+        note="The contract on sizes 1..30 is explored by random matrices, not exhaustively; 'no larger' is read in float64 arithmetic.",
+        technique="TLA+ model checking (TLC) + spec->code replay + recorded-structure validation by TLC",
+        design_ref="4/C32",
+    ),
 }
 PENDING_REASON = "check not built yet in this round (planned in DESIGN.md section 4); not claimed until it runs"
 NOT_APPLICABLE = {}
